@@ -14,7 +14,7 @@ from common import *  # noqa
 
 PROP = "C03"
 TABLES = ["C03_AnsiSequences", "C03_Regexes"]
-MODELS = [("c03", "Extract/ExC03.v", "run_C03_all2")]
+MODELS = [("c03", "Extract/ExC03.v", "run_C03_all3")]
 
 ESC = "\x1b"
 START = "\x1b[200~"
@@ -135,9 +135,12 @@ class Impl:
             self._reader_fds = (r, w)
         return self._reader._stdin_decoder_cls(errors=self._reader.errors)
 
-    def run_reader(self, calls):
+    ERR_MODES = ["surrogateescape", "ignore", "replace", "strict"]
+
+    def run_reader(self, calls, mode=None):
         """calls: [(sel, rd)] with sel 0 ready / 1 not ready / 2 OSError, rd (0 bytes) / (1) OSError; select and os of
-        posix_utils are replaced by stubs that produce exactly these outcomes"""
+        posix_utils are replaced by stubs that produce exactly these outcomes.  mode: index in ERR_MODES = the errors=
+        argument of the reader (None: the default); with a mode each step also says whether read() raised UnicodeDecodeError"""
         import types
         from prompt_toolkit.input import posix_utils as pu
         state = {"i": 0, "taken": []}
@@ -159,12 +162,18 @@ class Impl:
         pu.os = types.SimpleNamespace(read=fake_read)
         out = []
         try:
-            rd = pu.PosixStdinReader(0)
+            rd = pu.PosixStdinReader(0) if mode is None else pu.PosixStdinReader(0, errors=self.ERR_MODES[mode])
             for i in range(len(calls)):
                 state["i"] = i
                 state["taken"] = []
-                text = with_watchdog(lambda: rd.read(), 5)
-                out.append([S(text), bool(rd.closed), list(rd._stdin_decoder.getstate()[0]), state["taken"]])
+                raised = False
+                try:
+                    text = with_watchdog(lambda: rd.read(), 5)
+                except UnicodeDecodeError:
+                    if mode is None:
+                        raise
+                    text, raised = "", True
+                out.append([S(text), bool(rd.closed), list(rd._stdin_decoder.getstate()[0]), state["taken"]] + ([] if mode is None else [raised]))
         except Exception as e:  # noqa
             out.append([-99])
         finally:
@@ -191,6 +200,21 @@ class Impl:
                 return "end of file: expected '' and closed"
             if rd.read() != "" or not rd.closed:
                 return "after end of file: expected '' and closed"
+        finally:
+            if w is not None:
+                os.close(w)
+            os.close(r)
+        # end of file with an incomplete sequence pending: never delivered (C03_reader_eof_tail_undelivered)
+        r, w = os.pipe()
+        rd = PosixStdinReader(r)
+        try:
+            os.write(w, b"a\xc3")
+            os.close(w)
+            w = None
+            got = [rd.read(), rd.read(), rd.read()]
+            if got != ["a", "", ""] or not rd.closed or rd._stdin_decoder.getstate()[0] != b"\xc3":
+                return "end of file with b'\\xc3' pending: expected 'a', '', '' closed with the byte still undecoded, got %r closed=%r state=%r" % (
+                    got, rd.closed, rd._stdin_decoder.getstate())
         finally:
             if w is not None:
                 os.close(w)
@@ -597,6 +621,42 @@ def gen_reader_cases(chk):
     return out
 
 
+def gen_reader_mode_cases(chk):
+    """(mode, calls) for the errors= argument: malformed, truncated and well-formed data cut across calls"""
+    rng = chk.rng
+    datas = [[0x61], [0xc3], [0xa9, 0x1b], [0xe7, 0x95], [0x8c], [0xff, 0x41], [0xf0, 0x9f, 0x98], [0x80], [0xc3, 0x28],
+             [0xe2, 0x82], [0xe2, 0x28, 0xa1], [0xf0, 0x90, 0x28], [0xf0, 0x9f, 0x98, 0x41], [0xed, 0xa0], [0xed, 0xa0, 0x80],
+             [0xe0, 0x80], [0xf4, 0x90], [0xc0, 0xaf], [0xe2, 0x82, 0xac], [0xf0, 0x9f, 0x98, 0x80]]
+    outcomes = [[0, []], [1]] + [[0, d] for d in datas]
+    out = []
+    for mode in range(4):
+        for d1 in datas:
+            for d2 in datas:
+                out.append([mode, [[0, [0, d1]], [0, [0, d2]], [0, [0, [0x62]]]]])
+        for _ in range(600 if chk.tier == "thorough" else 120):
+            out.append([mode, [[rng.choice([0, 0, 0, 0, 1, 2]), rng.choice(outcomes + outcomes[2:] * 2)] for _ in range(rng.randint(1, 7))]])
+        # every byte string of length <= 2 (3 in thorough) over the class-boundary bytes, one call, then a probe call
+        for n in range(1, (4 if chk.tier == "thorough" else 3)):
+            for t in itertools.product(U8_ALPHA, repeat=n):
+                out.append([mode, [[0, [0, list(t)]], [0, [0, [0x80, 0x62]]]]])
+    return out
+
+
+def gen_encode_cases(chk):
+    """code points for the specification's encoder: every boundary of the UTF-8 length classes, the escapes, random scalars"""
+    rng = chk.rng
+    edges = [0, 1, 0x7f, 0x80, 0x7ff, 0x800, 0xfff, 0x1000, 0xcfff, 0xd000, 0xd7ff, 0xe000, 0xffff, 0x10000, 0x3ffff, 0x40000,
+             0xfffff, 0x100000, 0x10ffff] + list(range(0xdc80, 0xdd00))
+    n = 20000 if chk.tier == "thorough" else 3000
+    rnd = []
+    while len(rnd) < n:
+        c = rng.choice([rng.randrange(0, 0x800), rng.randrange(0x800, 0x10000), rng.randrange(0x10000, 0x110000)])
+        if not (0xd800 <= c < 0xe000):
+            rnd.append(c)
+    allc = edges + rnd
+    return [allc[i:i + 500] for i in range(0, len(allc), 500)]
+
+
 def gen_cache_cases(chk, table):
     rng = chk.rng
     pool = ["\x1b", "\x1b[", "\x1b[1", "\x1b[1;", "\x1b[1;5", "\x1b[1;5A", "\x1b[M", "\x1b[Ma", "\x1b[Mab", "\x1b[Mabc", "\x1b[<", "\x1b[<1;2",
@@ -623,12 +683,12 @@ def show_case(case):
 def main(tier):
     chk = Check(PROP, tier)
     pr = chk.proofs("Props/C03.v", tables=TABLES)
-    okm, logm = build_model("c03", "Extract/ExC03.v", "run_C03_all2", tables=TABLES)
+    okm, logm = build_model("c03", "Extract/ExC03.v", "run_C03_all3", tables=TABLES)
     if not okm and not getattr(pr, "gen_ok", True):
         # the table generator failed closed (reported by proof_gate below): go on with the
         # last generated table so that the correspondence run can still find a failing input
         chk.note("gen/gen_t_c03.py failed closed: " + (pr.gen_log or "").strip()[-300:])
-        okm, logm = build_model("c03", "Extract/ExC03.v", "run_C03_all2", tables=())
+        okm, logm = build_model("c03", "Extract/ExC03.v", "run_C03_all3", tables=())
     if not okm:
         chk.violation("tie", "model does not build: " + logm[-400:], {"kind": "model-build"}, {"log": logm[-3000:]}, no_input=True)
         return chk.finish()
@@ -763,6 +823,37 @@ def main(tier):
     chk.coverage["input_distribution"]["reader_calls"] = len(rcases)
     chk.coverage["traces_validated_against_impl"] += len(rcases) - nrd
 
+    # PosixStdinReader(errors=...): the four handlers, read() raising UnicodeDecodeError under "strict"
+    ecases = gen_reader_mode_cases(chk)
+    eimpl = [impl.run_reader(c_[1], mode=c_[0]) for c_ in ecases]
+    emodel = run_model("c03", [[13, c_[0], c_[1]] for c_ in ecases])
+    ne = 0
+    for c_, a, m in zip(ecases, eimpl, emodel):
+        chk.count_case([13, c_[0], c_[1]], True)
+        if sx_norm(a) != m:
+            ne += 1
+            if ne <= 3:
+                chk.violation("correspondence", "PosixStdinReader(errors=%r).read differs from the model: calls=%r impl (text, closed, undecoded, taken, raised)=%r model=%r" % (
+                              impl.ERR_MODES[c_[0]], c_[1], sx_norm(a), m),
+                              {"kind": "correspondence", "op": "reader-errors", "mode": impl.ERR_MODES[c_[0]]},
+                              {"reader_errors": c_[0], "reader_calls": c_[1], "impl": sx_norm(a), "model": m}, no_input=True)
+    chk.coverage["input_distribution"]["reader_errors_calls"] = len(ecases)
+    chk.coverage["traces_validated_against_impl"] += len(ecases) - ne
+
+    # the specification's encoder (Model/C03_Utf8Spec.v encode_se1) against CPython's str.encode('utf-8', 'surrogateescape')
+    ncp = nbadcp = 0
+    for chunk in gen_encode_cases(chk):
+        mres = run_model("c03", [[12, chunk]])[0]
+        for cp, mb in zip(chunk, mres if isinstance(mres, list) else [None] * len(chunk)):
+            ncp += 1
+            if list(chr(cp).encode("utf-8", "surrogateescape")) != mb:
+                nbadcp += 1
+                if nbadcp <= 3:
+                    chk.violation("tie", "the specification's UTF-8 encoder differs from CPython's on U+%04X: CPython %r spec %r" % (
+                                  cp, list(chr(cp).encode("utf-8", "surrogateescape")), mb), {"kind": "utf8-spec"}, {"cp": cp, "model": mb}, no_input=True)
+    chk.coverage["input_distribution"]["utf8_spec_code_points"] = ncp
+    chk.coverage["evaluations"] += ncp
+
     # the memo table _IsPrefixOfLongerMatchCache: answers and contents after query histories (fresh instance each)
     qcases = gen_cache_cases(chk, table)
     qimpl = [impl.run_cache(q_) for q_ in qcases]
@@ -783,7 +874,7 @@ def main(tier):
     small = [i for i in range(len(cases)) if sum(len(op[1]) for op in cases[i] if op[0] == 0) <= 80]
     idx = sorted(chk.rng.sample(small, min(k, len(small))))
     pairs = [(cases[i], impl_results[i]) for i in idx]
-    bad, logs = vm_crosscheck(PROP, "run_C03_all2", "Model.C03_Vt100Parser Model.C03_Vt100Input Model.C03_Cache", pairs, per_file=150)
+    bad, logs = vm_crosscheck(PROP, "run_C03_all3", "Model.C03_Vt100Parser Model.C03_Vt100Input Model.C03_Cache Model.C03_Utf8Spec Model.C03_Errors", pairs, per_file=150)
     chk.coverage["vm_compute_crosschecked"] = len(pairs)
     model_bad = set(i for i, (a, m) in enumerate(zip(impl_results, model_results)) if sx_norm(a) != m)
     vm_bad = set(idx[b] for b in bad if isinstance(b, int))
@@ -808,9 +899,12 @@ def main(tier):
                         "Assumed: re.match on these anchored patterns accepts exactly that language (backtracking does not change acceptance) - tested on this run against /repo's compiled regexes on every string of length <= 3 over %r "
                         "and on ESC [ + every tail of length <= %d over it (%d strings)" % (RE_ALPHA, 5 if chk.tier == "thorough" else 4, len(rs)),
                         "UTF-8: the Coq decoder (Model/C03_Vt100Input.v step/dec) was compared with the decoder PosixStdinReader constructs (utf-8, surrogateescape, incremental) on EVERY byte string of length <= %d over the %d class-boundary bytes %r (%d strings), text and undecoded tail; "
-                        "assumed beyond: bytes strictly inside a class behave like its boundaries; other stdin encodings are not modelled" % (4 if chk.tier == "thorough" else 3, len(U8_ALPHA), [hex(b) for b in U8_ALPHA], len(us)),
+                        "assumed beyond: bytes strictly inside a class behave like its boundaries; other stdin encodings are not modelled. The decoder model is PROVED (all byte strings, all chunkings) to compute the declarative decoding of Model/C03_Utf8Spec.v, "
+                        "whose encoder was compared on this run with CPython's str.encode('utf-8', 'surrogateescape') on every length-class boundary, all escapes U+DC80..DCFF and random scalar values (count: input_distribution.utf8_spec_code_points)" % (4 if chk.tier == "thorough" else 3, len(U8_ALPHA), [hex(b) for b in U8_ALPHA], len(us)),
                         "PosixStdinReader.read(): the model takes the outcomes of select (ready / not ready / OSError) and os.read (data / b'' / OSError) as labels; the correspondence injects them by replacing "
                         "posix_utils.select and posix_utils.os with stubs (all pairs of calls + random call sequences) and checks data / not ready / end of file / closed descriptor on real descriptors; "
+                        "the errors= argument (ignore / replace / strict / surrogateescape) is in the model (Model/C03_Errors.v) and compared the same way incl. UnicodeDecodeError raised by read() (input_distribution.reader_errors_calls); "
+                        "an incomplete sequence pending at end of file is never delivered (C03_reader_eof_tail_undelivered, checked on a real pipe) - judged outside the property text (it speaks about characters); "
                         "the memo table is compared on a fresh _IsPrefixOfLongerMatchCache() per query history (answers and contents); the module-level instance shared by all parsers is assumed to be only ever filled through __missing__",
                         "no bound on the length of a read: feed() is a loop since 6a14a13 (reads holding 100-700 pastes, 1500 in thorough, are part of every run)",
                         "termios/raw mode of Vt100Input and stdin encodings other than UTF-8 are outside the model"]
@@ -827,6 +921,18 @@ def replay(data):
         print("impl :", sx_norm(a))
         print("model:", m)
         return 0 if sx_norm(a) == m else 1
+    if "reader_calls" in rep:
+        mode = rep.get("reader_errors")
+        a = impl.run_reader(rep["reader_calls"], mode=mode)
+        m = run_model("c03", [[10, rep["reader_calls"]] if mode is None else [13, mode, rep["reader_calls"]]])[0]
+        print("PosixStdinReader(errors=%r): calls (select outcome, os.read outcome) = %r" % (
+            "surrogateescape" if mode is None else impl.ERR_MODES[mode], rep["reader_calls"]))
+        print("impl :", sx_norm(a))
+        print("model:", m)
+        return 0 if sx_norm(a) == m else 1
+    if "case" not in rep:
+        print("nothing to re-run:", rep)
+        return 0
     case = rep["case"]
     out, trace = impl.run(case)
     print("p = Vt100Parser(keys.append)")
